@@ -51,7 +51,7 @@ def lean_unitary(ctx, cirq, circuit, qs):
             phase *= complex(cirq.unitary(op)[0, 0])
             continue
         ops.append({'m': [common.c2j(z) for z in cirq.unitary(op).reshape(-1)], 'axes': [pos[q] for q in op.qubits]})
-    out = ctx.driver.ask([{'p': 'C01', 'op': 'unitary', 'shape': [2] * len(qs), 'ops': ops}])[0]
+    out = ctx.driver.ask([{'p': 'C01', 'op': 'unitary', 'shape': [q.dimension for q in qs], 'ops': ops}])[0]
     return phase * np.array([[common.j2c(z) for z in row] for row in out])
 
 
@@ -248,7 +248,7 @@ def structure_only(cirq):
 
     return {
         'align_left': cirq.align_left, 'align_right': cirq.align_right, 'drop_empty_moments': cirq.drop_empty_moments,
-        'synchronize_terminal_measurements': cirq.synchronize_terminal_measurements, 'stratified_circuit': strat,
+        'synchronize_terminal_measurements': cirq.synchronize_terminal_measurements, 'stratified_circuit': strat, 'stratified_circuit(default)': cirq.stratified_circuit,
         'synchronize_terminal_measurements(after_other=False)': lambda c, context=None: cirq.synchronize_terminal_measurements(c, after_other_operations=False, context=context),
     }
 
@@ -315,15 +315,23 @@ def run(ctx: common.Run):
         return
     check_rules(ctx, cirq)
     check_gauges(ctx, cirq)
+    check_qudit_passes(ctx, cirq)
     n = 40 if ctx.tier == 'quick' else 600
     rng = ctx.substream('circuits')
     so = structure_only(cirq)
     rw = rewriting(cirq)
     # ---------------------------------------------------------------- structure-only transformers: the theorem applies
     reqs, meta = [], []
-    for i in range(n):
+    sq = cirq.LineQubit.range(4)
+    so_corpus = [  # minimised past failures: a key measured twice with two controls on it in between, placed in different strata
+        (cirq.Circuit([cirq.Moment(cirq.measure(sq[0], key='m'), cirq.H(sq[1])), cirq.Moment(cirq.H(sq[1])), cirq.Moment(cirq.H(sq[1])), cirq.Moment(cirq.H(sq[1])),
+                       cirq.Moment(cirq.X(sq[1]).with_classical_controls('m')), cirq.Moment(cirq.X(sq[2]).with_classical_controls('m')), cirq.Moment(cirq.measure(sq[3], key='m'))]), sq),
+    ]
+    for i in range(n + len(so_corpus)):
         measured = rng.random() < 0.4
         circuit, qs = random_circuit(cirq, rng, measured=measured)
+        if i < len(so_corpus):
+            circuit, qs = so_corpus[i]
         circuit = tagged_unique(cirq, circuit)
         qpos = {q: j for j, q in enumerate(qs)}
         for name, f in so.items():
@@ -488,6 +496,16 @@ def run(ctx: common.Run):
                     ctx.report_witness(f'not-deep:{name.split("(")[0]}', 'a sub-circuit was rewritten although deep transformation was not requested', dict(rep, impl_out=[repr(out)[:2500]], spec_out=[repr(subs_in)[:800]]))
 
 
+class MMWrap:
+    """multi-moment gauge transformers take `rng_or_seed`"""
+
+    def __init__(self, t):
+        self.t = t
+
+    def __call__(self, circuit, prng=None):
+        return self.t(circuit, rng_or_seed=prng)
+
+
 def check_gauges(ctx, cirq):
     """gauge-compiling transformers (randomised: every draw must preserve the unitary; `as_sweep`: every parameter set of the
     symbolised circuit must), the insertion sort, tag transformers and the lightcone filter"""
@@ -504,6 +522,7 @@ def check_gauges(ctx, cirq):
         'SqrtISWAPGaugeTransformer': (gc.SqrtISWAPGaugeTransformer, [cirq.SQRT_ISWAP, cirq.ISWAP ** 4.5, cirq.ISWAP ** -3.5]),
         'CPhaseGaugeTransformer': (gc.CPhaseGaugeTransformer, [cirq.CZ, cirq.CZ ** 0.3, cirq.CZ ** -0.7, cirq.CZ ** 1.5]),
         'SpinInversionGaugeTransformer': (gc.SpinInversionGaugeTransformer, [cirq.ZZ ** 0.3, cirq.ZZ, cirq.CZ, cirq.ZZ ** -0.5]),
+        'CPhaseGaugeTransformerMM': (MMWrap(gc.CPhaseGaugeTransformerMM()), [cirq.CZ, cirq.CZ ** 0.3, cirq.CZ ** -0.7]),
         'SYCGaugeTransformer': (cirq_google.transformers.sycamore_gauge.SYCGaugeTransformer if hasattr(cirq_google.transformers, 'sycamore_gauge') else None, [cirq_google.SYC]),
     }
     for i in range(n):
@@ -522,14 +541,23 @@ def check_gauges(ctx, cirq):
                 a, b = free.pop(), free.pop()
                 ops.append(rng.choice(targets + [cirq.CNOT] if rng.random() < 0.85 else [cirq.ISWAP ** 0.3])(a, b))
             for q in free:
-                if rng.random() < 0.5:
+                r_ = rng.random()
+                if r_ < 0.5:
                     op = gen.one_qubit_gate(cirq, rng).on(q)
                     ops.append(op.with_tags(IGN) if rng.random() < 0.15 else op)
+                elif r_ < 0.6:
+                    # an operation without a gate next to the target gates: it has to be carried over
+                    ops.append(cirq.CircuitOperation(cirq.FrozenCircuit(gen.one_qubit_gate(cirq, rng).on(q))))
             moments.append(cirq.Moment(ops))
         circuit = cirq.Circuit(moments)
         if rng.random() < 0.3 and len(circuit):
             k = rng.randrange(len(circuit))
             circuit = cirq.Circuit(circuit[:k], cirq.Moment(), circuit[k:])
+        if i == 0:
+            # corpus: a sub-circuit operation in a moment that is gauged as a whole
+            name, (tr, targets) = 'CPhaseGaugeTransformerMM', gauges['CPhaseGaugeTransformerMM']
+            qs = cirq.LineQubit.range(3)
+            circuit = cirq.Circuit(cirq.Moment(cirq.CZ(qs[0], qs[1]), cirq.CircuitOperation(cirq.FrozenCircuit(cirq.H(qs[2])))), cirq.Moment(cirq.CZ(qs[0], qs[1]) ** 0.5, cirq.X(qs[2])))
         want = lean_unitary(ctx, cirq, circuit, list(qs))
         before = circuit.copy()
         rep = {'lines': [{'transformer': name, 'circuit': repr(circuit)}], 'theorem_or_correspondence': 'Lean reference semantics (C01)'}
@@ -613,6 +641,35 @@ def check_gauges(ctx, cirq):
                 if not dist_close(got_d, want_d):
                     ctx.report_witness(f'misc:{name}:measured', 'the transformed circuit has a different joint distribution of measurement records',
                                        dict(rep, impl_out=[repr(out)[:2000], sorted((repr(k), round(v, 8)) for k, v in got_d.items())[:10]], spec_out=[sorted((repr(k), round(v, 8)) for k, v in want_d.items())[:10]]))
+
+
+def check_qudit_passes(ctx, cirq):
+    """passes written for qubits either refuse qudit operations or leave the circuit's unitary alone"""
+    rng = ctx.substream('qudits')
+    rw = rewriting(cirq)
+    names = ['eject_z', 'eject_phased_paulis', 'merge_single_qubit_gates_to_phxz', 'merge_k_qubit_unitaries(k=1)', 'drop_negligible_operations', 'align_left', 'stratified_circuit', 'expand_composite',
+             'synchronize_terminal_measurements', 'drop_empty_moments', 'merge_single_qubit_moments_to_phxz']
+    for _ in range(8 if ctx.tier == 'quick' else 80):
+        d = rng.choice([3, 3, 4])
+        qs = [cirq.LineQid(0, d), cirq.LineQubit(1)]
+        X, Z = cirq.XPowGate(dimension=d), cirq.ZPowGate(dimension=d)
+        ops = [rng.choice([X, X, Z, X ** 2, Z ** 0.5, X ** -1, Z ** 2]).on(qs[0]) for _ in range(rng.randint(2, 4))]
+        if rng.random() < 0.5:
+            ops.insert(rng.randrange(len(ops) + 1), rng.choice([cirq.X, cirq.Z ** 0.5, cirq.H]).on(qs[1]))
+        circuit = cirq.Circuit(ops)
+        want = lean_unitary(ctx, cirq, circuit, qs)
+        for name in names:
+            ctx.count('check', 'qudit-pass')
+            ctx.case(['qudit-pass', name, repr(circuit)], True)
+            try:
+                out = rw[name](circuit)
+                got = lean_unitary(ctx, cirq, out, qs)
+            except (ValueError, TypeError, NotImplementedError) as e:
+                ctx.count('qudit_pass_refused', f'{name}:{type(e).__name__}')
+                continue
+            if got.shape != want.shape or not phase_close(got, want, 1e-6):
+                ctx.report_witness(f'rewrite:{name.split("(")[0]}:qudit', 'a pass treats qudit operations as the qubit gates of the same name: the unitary changes',
+                                   {'lines': [{'transformer': name, 'circuit': repr(circuit)}], 'impl_out': [repr(out)[:1500]], 'spec_out': ['same unitary, or a refusal'], 'theorem_or_correspondence': 'Lean reference semantics (C01)'})
 
 
 def check_rules(ctx, cirq):
